@@ -331,6 +331,10 @@ def run(rep: Report, tier: str):
     rep.assume("pickletools stack effects for GLOBAL MARK TUPLE LIST DICT REDUCE POP PUT GET MEMOIZE STOP")
 
     ARGSETS = [("CODE",), (), ("a", [1, "x"], {"k": 2, "e": {}})]
+    HEADERS = [("PROTO", "FRAME"), ()]
+    if tier == "thorough":
+        ARGSETS += [(1, 2, 3, 4), ([[["deep"]]],), ({"a": {"b": {"c": [1, {"d": 2}]}}},), ("x" * 300,), (b"bytes", 7)]
+        HEADERS += [("PROTO",), ("FRAME",), ("PROTO", "FRAME", "FRAME")]
     cases: List[Tuple[str, str, list, dict, str]] = []  # (helper, label, args, kwargs, mode)
     for rf, uo in itertools.product((True, False), repeat=2):
         for i, a in enumerate(ARGSETS):
@@ -348,7 +352,7 @@ def run(rep: Report, tier: str):
             cases.append(("insert_function_call_on_unpickled_object", f"compile_code={cc},constant_args={ca}", ["def injected_fn(obj): return obj"], dict(constant_args=ca, compile_code=cc), "function"))
 
     n_eval = 0
-    cases = [(hp, lb, a, k, m, hd) for (hp, lb, a, k, m) in cases for hd in (("PROTO", "FRAME"), ())]
+    cases = [(hp, lb, a, k, m, hd) for (hp, lb, a, k, m) in cases for hd in HEADERS]
     for helper, label0, args, kw, mode, header in cases:
         label = f"{label0},header={'+'.join(header) or 'none'}"
         args = [len(header) + 1 if a == "before-stop" else a for a in args] if helper == "insert_magic_int" else args
